@@ -7,6 +7,9 @@ Writer), spec/trace/TraceStream.tla (monitor for recorded executions).
 
 Binding: (a) every stream of GenStream replayed on the real decoder under every chunking /
 EOF delivery / empty reads / reader fault, three-way with encoding/json.Decoder;
+(a') the same streams decoded value by value by the positional decoder.Decoder (spec/DecObj.tla):
+values, Pos() after each value (encoding/json.Decoder.InputOffset is the agreement oracle),
+CheckTrailings() before / after each value, failure when no complete value follows, Reset;
 (b) StreamEnc cases replayed with a failing Writer at every position;
 (c) seeded long streams around the 4096-byte buffer recorded and validated by TLC.
 """
@@ -31,6 +34,12 @@ def model_check(ctx):
         if not r["ok"]:
             raise vf.Inconclusive("StreamImpl does not refine Stream!Ref in the model (%s): the specification is inconsistent" % r["violated"])
         runs.append(r)
+    # the positional decoder object: incremental decoding from Pos() = the values of the whole stream (spec/DecObj.tla)
+    r = vf.tlc(ctx, "DecObj", "mc/DecObj.cfg", name="decobj",
+               defines={"ALPHABET": A_IMPL, "MAXLEN": ctx.pick(3, 4), "MAXOPS": ctx.pick(3, 4)}, timeout=3000, workers=4)
+    if not r["ok"]:
+        raise vf.Inconclusive("DecObj does not agree with Stream!Ref in the model (%s): the specification is inconsistent" % r["violated"])
+    runs.append(r)
     return runs
 
 
@@ -134,8 +143,9 @@ def check(ctx):
             if fid:
                 ctx.known_hits[fid] = ctx.known_hits.get(fid, 0) + n
             else:
-                vf.violation(ctx, "StreamDecoder(%s) %s: input %s cuts %s expected %s got %s" % (
-                    b.get("cfg"), b.get("kind"), b.get("text"), b.get("cuts"), b.get("expected"), b.get("got")), b)
+                vf.violation(ctx, "%s %s: input %s cuts %s expected %s got %s" % (
+                    "decoder.Decoder" if b.get("cfg") == "decoder.Decoder" else "StreamDecoder(%s)" % b.get("cfg"),
+                    b.get("kind"), b.get("text"), b.get("cuts"), b.get("expected"), b.get("got")), b)
     for b in enc.get("bad") or []:
         fid = vf.match_known(known, b)
         if fid:
@@ -153,7 +163,8 @@ def check(ctx):
         "evaluations": sum(s["evals"] for s in dec) + enc["evals"],
         "distinct_nontrivial": sum(s["distinct_nontrivial"] for s in dec),
         "rule": "GenStream state = one byte-class stream (error-free up to its last byte); each replayed under every composition of "
-                "chunk boundaries x {EOF with last data, separately} x {empty reads} x {EOF, reader fault} x {ConfigStd, ConfigDefault}; "
+                "chunk boundaries x {EOF with last data, separately} x {empty reads} x {EOF, reader fault} x {ConfigStd, ConfigDefault}, "
+                "and once value by value through decoder.Decoder (Decode / Pos / CheckTrailings / Reset); "
                 "non-trivial = at least one value or more than one byte",
         "samples": samples[:8],
         "exhaustive": True,
